@@ -33,39 +33,50 @@ class C10(Prop):
     )
     budgets = {"quick": 200, "thorough": 4000}
 
+    def _map_case(self, rng: random.Random, force: str | None = None, bounded: bool = False) -> dict:
+        c = gen.gen_map_node(rng, force=force)
+        inner = [c["program"][0]]
+        a_node = next(n for n in inner[0]["nodes"] if n["name"] == "a")
+        mo = ["x"] + [p for p in ("y", "z") if any(q[0] == p for q in a_node["params"])]
+        rng.shuffle(mo)
+        n = rng.randint(0, 4)
+        mode = rng.choice(["zip", "product"])
+        values = []
+        for p in mo:
+            ln = n if mode == "zip" and rng.random() < 0.9 else rng.randint(0, 3)
+            values.append([p, {"l": [rng.randint(0, 4) for _ in range(ln)]}])
+        if any(q[0] == "c" for q in a_node["params"]):
+            values.append(["c", gen.rand_value(rng)])
+        rng.shuffle(values)
+        case = {"kind": "map", "program": inner, "values": values, "mapOver": mo, "mode": mode, "mapErr": rng.choice(["raise", "continue"]),
+                "cfg": {}, "runner": rng.choice(["sync", "async"]), "k": rng.choice([None, 1, 2, 3]), "seed": rng.randint(0, 10**6)}
+        if a_node["body"]["b"] == "failGe" and rng.random() < 0.7:
+            # several items fail, each with its own error, finishing in any order: raise mode must report the FIRST failing item in input order
+            ln = rng.randint(3, 5)
+            for v in values:
+                if v[0] in mo:
+                    v[1] = {"l": rng.sample(range(0, 8), ln)} if v[0] == "x" else {"l": [rng.randint(0, 4) for _ in range(ln)]}
+            case.update(mode="zip", mapErr="raise", runner=rng.choice(["async", "async", "sync"]), k=rng.choice([None, 2, 3, 4]))
+        if bounded:
+            # an async map under a limit of at least 2: items that fail early finish before items that run the whole chain
+            ln = rng.randint(3, 5)
+            for v in values:
+                if v[0] in mo:
+                    v[1] = {"l": rng.sample(range(0, 8), ln)} if v[0] == "x" else {"l": [rng.randint(0, 4) for _ in range(ln)]}
+            case.update(runner="async", k=rng.choice([2, 3]), mode="zip", mapErr=rng.choice(["continue", "raise"]))
+        return case
+
     def cases(self, rng: random.Random, tier: str) -> Iterable[dict]:
-        forced = 4
+        forced = ["product-order"] * 3 + ["continue-fail"] * 4 + ["raise-multi"] * 2      # whatever the seed
+        for _ in range(4):
+            yield self._map_case(rng, force="raise-multi", bounded=True)
         while True:
             if forced or rng.random() < 0.5:
-                c = gen.gen_map_node(rng, force="product-order" if forced else rng.choice([None, None, None, "raise-multi", "continue-fail", "product-order"]))
-                forced = max(0, forced - 1)
+                c = gen.gen_map_node(rng, force=forced.pop() if forced else rng.choice([None, None, None, "raise-multi", "continue-fail", "product-order"]))
                 yield {"kind": "node", "program": c["program"], "values": c["values"], "cfg": c.get("cfg", {}),
                        "runner": rng.choice(["sync", "async"]), "k": rng.choice([None, 1, 2, 3]), "seed": rng.randint(0, 10**6)}
             else:
-                c = gen.gen_map_node(rng)
-                inner = [c["program"][0]]
-                a_node = next(n for n in inner[0]["nodes"] if n["name"] == "a")
-                mo = ["x"] + [p for p in ("y", "z") if any(q[0] == p for q in a_node["params"])]
-                rng.shuffle(mo)
-                n = rng.randint(0, 4)
-                mode = rng.choice(["zip", "product"])
-                values = []
-                for p in mo:
-                    ln = n if mode == "zip" and rng.random() < 0.9 else rng.randint(0, 3)
-                    values.append([p, {"l": [rng.randint(0, 4) for _ in range(ln)]}])
-                if any(q[0] == "c" for q in a_node["params"]):
-                    values.append(["c", gen.rand_value(rng)])
-                rng.shuffle(values)
-                case = {"kind": "map", "program": inner, "values": values, "mapOver": mo, "mode": mode, "mapErr": rng.choice(["raise", "continue"]),
-                        "cfg": {}, "runner": rng.choice(["sync", "async"]), "k": rng.choice([None, 1, 2, 3]), "seed": rng.randint(0, 10**6)}
-                if a_node["body"]["b"] == "failGe" and rng.random() < 0.7:
-                    # several items fail, each with its own error, finishing in any order: raise mode must report the FIRST failing item in input order
-                    ln = rng.randint(3, 5)
-                    for v in values:
-                        if v[0] in mo:
-                            v[1] = {"l": rng.sample(range(0, 8), ln)} if v[0] == "x" else {"l": [rng.randint(0, 4) for _ in range(ln)]}
-                    case.update(mode="zip", mapErr="raise", runner=rng.choice(["async", "async", "sync"]), k=rng.choice([None, 2, 3, 4]))
-                yield case
+                yield self._map_case(rng)
 
     def impl(self, case: dict) -> Any:
         ctl = sched.Controller("random", case["seed"]) if case["runner"] == "async" else None
